@@ -14,6 +14,10 @@ Search: the property itself on the real code with references computed here, neve
     shapes, different statistics and num_cores; every call is compared with the formula for the CURRENT array; a
     failure that disappears on a fresh object is reported as `instance-reuse-...` with the whole (minimised) history,
     after it has been reproduced in a new process;
+  * error-path sessions: between the valid calls the object serves calls that end in an exception which the caller
+    catches (statistic raising or returning a non-number on its k-th invocation — probe call, first, second, middle,
+    last sample — data too short, invalid num_cores / data / function; num_cores 1 and > 1); the following valid
+    calls are judged against the formula for the object's constructor arguments -> `instance-reuse-after-error-...`;
   * magnitude sweeps: c = +-2^k for k over [-996, 996] (c*x exact) and shifts +-2^j up to 2^40 (x+s exact), data with
     tiny relative spread: the exact formula, the scaling law est(c x) = |c| est(x) (to a few ulp, since scaling by a
     power of two is exact in every floating-point step) and the shift law, each with a tolerance derived from the
@@ -56,10 +60,32 @@ def translate(ctx):
 
 
 # ------------------------------------------------------------------ the statistic handed to the real code
-def stat(x, kind="mean", log=None, slow=0):
+class StatFault(RuntimeError):
+    """raised by the statistic on purpose (error-path steps of the long-lived-object sessions)"""
+
+
+def _bump(path):
+    """number of earlier invocations recorded in the counter file (atomic across processes: O_APPEND)"""
+    fd = os.open(path, os.O_WRONLY | os.O_APPEND)
+    try:
+        os.write(fd, b"x")
+        return os.lseek(fd, 0, os.SEEK_CUR) - 1
+    finally:
+        os.close(fd)
+
+
+def stat(x, kind="mean", log=None, slow=0, fault=None, counter=None):
     """User statistic.  Runs in the pool's worker processes (and once, as the probe call, in the parent).
     `slow` > 0 adds a delay that depends on the data it sees, which perturbs the completion order of the tasks.
-    `log` = path of a file to which (pid, start, end, checksum of the array seen) is appended."""
+    `log` = path of a file to which (pid, start, end, checksum of the array seen) is appended.
+    `fault` = {"type": "raise-at" | "bad-return-at", "k": i, "what": ...}: misbehave on the i-th invocation of this call
+    (invocation 0 is the probe call in the parent), counted through the file `counter` shared by all processes."""
+    if fault is not None:
+        if _bump(counter) == fault["k"]:
+            if fault["type"] == "raise-at":
+                raise StatFault(f"statistic fails on purpose at invocation {fault['k']}")
+            w = fault.get("what")
+            return [1.0, 2.0] if w == "list" else np.array([1.0, 2.0]) if w == "array" else "x" if w == "str" else None
     t0 = time.monotonic_ns()
     crc = zlib.crc32(np.ascontiguousarray(x).tobytes())
     if kind in ("mean", "slowmean"):
@@ -596,25 +622,40 @@ def oracle_check(cfg, rng, cores_list=None):
 
 
 # ------------------------------------------------------------------ long-lived objects
+class Step:
+    """one call on the long-lived object: a valid call (fault None), judged against the formula, or an error-path call
+    (fault = dict, see run_fault) that is expected to end in an exception which the caller catches"""
+
+    def __init__(self, cfg, cores, fault=None):
+        self.cfg, self.cores, self.fault = cfg, cores, fault
+
+    def brief(self):
+        c = self.cfg
+        return dict(n=c.n, d=c.d, kind=c.kind, ndim=c.base.ndim, num_cores=self.cores, **({"fault": self.fault} if self.fault else {}))
+
+
 class Session:
-    """one Jackknife(frac, N, seed) object and the calls it serves, in order: [(Cfg, num_cores)]"""
+    """one Jackknife(frac, N, seed) object and the calls it serves, in order"""
 
     def __init__(self, frac, N, seed, steps):
-        self.frac, self.N, self.seed, self.steps = frac, N, seed, steps
+        self.frac, self.N, self.seed = frac, N, seed
+        self.steps = [st if isinstance(st, Step) else Step(*st) for st in steps]
 
     def as_json(self, failing_step=None):
         return dict(mode="session", frac=self.frac, N=self.N, seed=self.seed, failing_step=failing_step,
-                    steps=[dict(data=c.base.tolist(), dtype=str(c.base.dtype), layout=c.layout, kind=c.kind, num_cores=k,
-                                n=c.n, d=c.d) for c, k in self.steps])
+                    steps=[dict(data=st.cfg.base.tolist(), dtype=str(st.cfg.base.dtype), layout=st.cfg.layout,
+                                kind=st.cfg.kind, num_cores=st.cores, n=st.cfg.n, d=st.cfg.d, fault=st.fault)
+                           for st in self.steps])
 
     @staticmethod
     def from_json(j):
         fr, N, sd = float(j["frac"]), int(j["N"]), int(j["seed"])
-        return Session(fr, N, sd, [(Cfg(np.array(st["data"], dtype=st.get("dtype", "float64")), st.get("layout", "c"),
-                                        st["kind"], fr, N, sd), int(st["num_cores"])) for st in j["steps"]])
+        return Session(fr, N, sd, [Step(Cfg(np.array(st["data"], dtype=st.get("dtype", "float64")), st.get("layout", "c"),
+                                            st["kind"], fr, N, sd), int(st["num_cores"]), st.get("fault")) for st in j["steps"]])
 
     def canon(self):
-        return (self.frac, self.N, self.seed, tuple((c.canon(), k) for c, k in self.steps))
+        return (self.frac, self.N, self.seed,
+                tuple((st.cfg.canon(), st.cores, json.dumps(st.fault, sort_keys=True)) for st in self.steps))
 
 
 def gen_session(rng, thorough=False):
@@ -626,31 +667,107 @@ def gen_session(rng, thorough=False):
     for _ in range(rng.randint(3, 5)):
         cfg = gen_cfg_for_object(rng, frac, N, seed, avoid_n=prev_n, lo=3, hi=120 if rng.random() < 0.5 else 40)
         cores = rng.choice([1, 2, 3, 4] + ([8, 16] if thorough else []))
-        steps.append((cfg, cores))
+        steps.append(Step(cfg, cores))
         prev_n = cfg.n
     return Session(frac, N, seed, steps)
 
 
-def run_session(sess, rng):
-    """all calls on ONE object; returns the first failing step (index, clause, what, detail) or None"""
+# ---- error-path calls
+def fault_catalogue(N):
+    """every kind of call that ends in an exception, at every point of the call where it can happen:
+    statistic raising / returning a non-number on its k-th invocation (0 = probe call, 1 = first sample executed,
+    2, middle, N = last), data too short, invalid arguments"""
+    ks = sorted({0, 1, 2, max(1, N // 2 + 1), N})
+    cat = [dict(type="raise-at", k=k) for k in ks]
+    cat += [dict(type="bad-return-at", k=k, what=w) for k, w in zip(ks, ["list", "none", "array", "str", "list"])]
+    cat += [dict(type="short-data"), dict(type="bad-num-cores", value=0), dict(type="bad-num-cores", value=-2),
+            dict(type="data-not-array"), dict(type="function-not-callable")]
+    return cat
+
+
+def gen_error_sessions(rng, thorough=False):
+    """sessions that cover the whole fault catalogue with num_cores = 1 and > 1; every error-path call is followed by a
+    valid call (other array / statistic / num_cores) on the same object"""
+    frac = rng.choice([0.2, 0.25, 0.3, 0.4, 0.5])
+    N = rng.randint(5, 12)
+    seed = rng.choice([42, 7, rng.randint(0, 2 ** 31)])
+    todo = [(f, c) for f in fault_catalogue(N) for c in (1, rng.choice([2, 3, 4]))]
+    rng.shuffle(todo)
+    out = []
+    while todo:
+        steps = []
+        prev_n = None
+        if rng.random() < 0.5:
+            cfg = gen_cfg_for_object(rng, frac, N, seed, lo=6, hi=40, allow_short=False)
+            steps.append(Step(cfg, rng.choice([1, 2, 3])))
+            prev_n = cfg.n
+        for f, c in [todo.pop() for _ in range(min(len(todo), rng.randint(2, 4)))]:
+            cf = gen_cfg_for_object(rng, frac, N, seed, avoid_n=prev_n, lo=6, hi=40, allow_short=False)
+            steps.append(Step(cf, c, f))
+            cv = gen_cfg_for_object(rng, frac, N, seed, avoid_n=cf.n, lo=6, hi=40, allow_short=False)
+            steps.append(Step(cv, rng.choice([1, 2, 3] + ([8] if thorough else []))))
+            prev_n = cv.n
+        out.append(Session(frac, N, seed, steps))
+    return out
+
+
+def run_fault(cfg, cores, obj, fault):
+    """an error-path call on `obj`, the exception caught as a caller would; returns the exception's class name or None"""
+    arr, _ = cfg.fresh()
+    t = fault["type"]
+    counter = None
+    try:
+        try:
+            if t in ("raise-at", "bad-return-at"):
+                fd, counter = tempfile.mkstemp(prefix="c15_cnt_", suffix=".bin")
+                os.close(fd)
+                obj.compute_jackknife_estimates(arr, stat, cores, kind=cfg.kind, fault=fault, counter=counter)
+            elif t == "short-data":
+                obj.compute_jackknife_estimates(arr[:1], stat, cores, kind=cfg.kind)
+            elif t == "bad-num-cores":
+                obj.compute_jackknife_estimates(arr, stat, fault["value"], kind=cfg.kind)
+            elif t == "data-not-array":
+                obj.compute_jackknife_estimates(arr.tolist(), stat, cores, kind=cfg.kind)
+            elif t == "function-not-callable":
+                obj.compute_jackknife_estimates(arr, 3, cores)
+            else:
+                raise ValueError("unknown fault " + t)
+        except Exception as e:  # noqa: BLE001 - this is the caller catching whatever the call raises
+            return type(e).__name__
+        return None
+    finally:
+        if counter and os.path.exists(counter):
+            os.unlink(counter)
+
+
+def run_session(sess, rng, stats=None):
+    """all calls on ONE object; returns the first failing VALID step (index, clause, what, detail) or None.
+    Valid calls are judged against the formula for the object's constructor arguments and the array of that call."""
     from sparkx.Jackknife import Jackknife
     obj = Jackknife(sess.frac, sess.N, sess.seed)
-    for k, (cfg, cores) in enumerate(sess.steps):
+    for k, st in enumerate(sess.steps):
         scramble_global(rng)
-        r = run_real(cfg, cores, obj=obj, want_log=False)
-        pr = step_problem(cfg, r)
+        if st.fault is not None:
+            exc = run_fault(st.cfg, st.cores, obj, st.fault)
+            if stats is not None:
+                t = f"{st.fault['type']}" + (f"@{st.fault['k']}" if "k" in st.fault else "")
+                stats[f"error-step/{t}/cores={'1' if st.cores == 1 else '>1'}/{'raised ' + exc if exc else 'returned'}"] = \
+                    stats.get(f"error-step/{t}/cores={'1' if st.cores == 1 else '>1'}/{'raised ' + exc if exc else 'returned'}", 0) + 1
+            continue
+        r = run_real(st.cfg, st.cores, obj=obj, want_log=False)
+        pr = step_problem(st.cfg, r)
         if pr:
             return (k,) + pr
     return None
 
 
-def session_check(sess, rng):
+def session_check(sess, rng, stats=None):
     """[] or [(key, what, replay_input, detail)]"""
-    bad = run_session(sess, rng)
+    bad = run_session(sess, rng, stats)
     if bad is None:
         return []
     k, clause, what, detail = bad
-    cfg, cores = sess.steps[k]
+    cfg, cores = sess.steps[k].cfg, sess.steps[k].cores
     scramble_global(rng)
     fresh = step_problem(cfg, run_real(cfg, cores, want_log=False))
     if fresh is not None:
@@ -673,12 +790,15 @@ def session_check(sess, rng):
     if b is not None:
         what, detail = b[2], b[3]
     inp = hist.as_json(failing_step=len(hist.steps) - 1)
+    after_error = any(st.fault is not None for st in hist.steps[:-1])
     detail = dict(detail, fresh_object="same call on a new Jackknife object satisfies the property",
-                  history=[dict(n=c.n, d=c.d, kind=c.kind, ndim=c.base.ndim, num_cores=kk) for c, kk in hist.steps],
+                  history=[st.brief() for st in hist.steps],
                   reproduced_in_new_process=reproduces_in_new_process(inp))
-    return [(f"instance-reuse-{clause}",
-             f"call {len(hist.steps)} on a re-used Jackknife object (earlier arrays of length "
-             f"{[c.n for c, _ in hist.steps[:-1]]}, now {hist.steps[-1][0].n}): {what}; a fresh object is right",
+    earlier = [("error-path call " + json.dumps(st.fault) + f" with num_cores={st.cores}") if st.fault
+               else f"array of length {st.cfg.n}" for st in hist.steps[:-1]]
+    return [(f"instance-reuse-{'after-error-' if after_error else ''}{clause}",
+             f"call {len(hist.steps)} on a re-used Jackknife object (earlier: {'; '.join(earlier)}; now an array of length "
+             f"{hist.steps[-1].cfg.n}): {what}; a fresh object is right",
              inp, detail)]
 
 
@@ -936,15 +1056,29 @@ def search(ctx, budget_s):
         sess = gen_session(rng, ctx.thorough)
         probs = session_check(sess, rng)
         ns += 1
-        ds = {c.d for c, _ in sess.steps}
+        ds = {st.cfg.d for st in sess.steps}
         ctx.case(("session", sess.canon()), len(ds) >= 2)
         ctx.count("oracle/session-calls", len(sess.steps))
         ctx.count(f"oracle/session-distinct-d={min(len(ds), 4)}")
-        if any(c.d < 1 for c, _ in sess.steps):
+        if any(st.cfg.d < 1 for st in sess.steps):
             ctx.count("oracle/session-with-inadmissible-call")
         report4(probs)
         if any(k.startswith("instance-reuse") for k in found):
             break
+    # (1b) the same with error-path calls (caught by the caller) between the valid ones: whole fault catalogue x
+    #      num_cores in {1, >1}
+    ne = 0
+    for rep in range(ctx.n(1, 4)):
+        for sess in gen_error_sessions(rng, ctx.thorough):
+            st_ = {}
+            probs = session_check(sess, rng, st_)
+            ne += 1
+            for t, k in st_.items():
+                ctx.count("oracle/" + t, k)
+            ctx.case(("error-session", sess.canon()), True)
+            ctx.count("oracle/error-session-calls", len(sess.steps))
+            report4(probs)
+    ctx.cov["oracle_error_sessions"] = ne
     # (2) magnitude sweeps for the formula, the scaling law and the shift law
     nm = 0
     for i in range(ctx.n(3, 10)):
@@ -959,6 +1093,7 @@ def search(ctx, budget_s):
             break
     # (3) random single-call configurations, some of them at other magnitudes
     limit = 400 if ctx.thorough else 60
+    t0 = time.time()  # the directed phases above are bounded by their case counts; the budget is for the random phase
     while time.time() - t0 < budget_s and n < limit:
         cfg = gen_cfg(rng, want_d1=(n % 3 == 0), allow_mut=False, small=(n % 2 == 0), magnitude=(n % 5 == 4))
         probs = oracle_check(cfg, rng)
@@ -997,9 +1132,10 @@ def replay(ctx, path):
         probs = []
         if bad is not None:
             k, clause, what, _ = bad
-            cfg, cores = sess.steps[k]
+            cfg, cores = sess.steps[k].cfg, sess.steps[k].cores
             fresh = step_problem(cfg, run_real(cfg, cores, want_log=False))
-            key = f"instance-reuse-{clause}" if fresh is None else clause
+            ae = "after-error-" if any(st.fault is not None for st in sess.steps[:k]) else ""
+            key = f"instance-reuse-{ae}{clause}" if fresh is None else clause
             probs = [(key, f"call {k + 1} of {len(sess.steps)} on one Jackknife object: {what}" +
                       ("; the same call on a fresh object is right" if fresh is None else ""))]
     elif mode in ("scale", "shift"):
